@@ -110,6 +110,13 @@ func genOutCase(t *rapid.T, forceSigned bool) OutCase {
 		sp.NowUnixNano = sec*1e9 + rapid.Int64Range(0, 999999999).Draw(t, "clockNs")
 	}
 	sp.NowOffset = rapid.SampledFrom([]int{0, 0, 330, -480, 840, -720, 1}).Draw(t, "clockZone")
+	if rapid.IntRange(0, 4).Draw(t, "dstClock") == 0 {
+		// a clock in a DST-observing zone within three hours of an offset change (covers the repeated hour)
+		zc := h.GenClockNearDST().Draw(t, "dst")
+		if at, err := time.Parse(time.RFC3339Nano, zc[1]); err == nil {
+			sp.NowZone, sp.NowUnixNano = zc[0], at.UnixNano()
+		}
+	}
 	// keys
 	sp.Enc = genKeyCfg(t, "enc", "E1", "E2", true)
 	sp.Sig = genKeyCfg(t, "sig", "S1", "S2", true)
@@ -300,6 +307,9 @@ func (c *OutCase) classes() []string {
 	}
 	if c.SP.NowOffset != 0 {
 		cl = append(cl, "clock:non-utc")
+	}
+	if c.SP.NowZone != "" {
+		cl = append(cl, "clock:near-dst-transition")
 	}
 	return cl
 }
